@@ -26,8 +26,10 @@ class Run:
         tys = norm.param_types(ctx.prog.fns[CHECK_FILE].get("sig"))
         sp = [p for p, t in zip(self.ps, tys) if "Searcher" in t]
         self.self_param = sp[0]["id"] if sp else self.ps[0]["id"]
+        fi = [p for p, t in zip(self.ps, tys) if "FileInfo" in t and "Option<" in t]
+        self.file_info_param = fi[0]["id"] if fi else None
 
-    def run(self, where=None, buffered=False, aggregate=False, found=0, stdout="ok", select=("a", "b"), order=("k",), group=(), columns=("Name",)):
+    def run(self, where=None, buffered=False, aggregate=False, found=0, stdout="ok", select=("a", "b"), order=("k",), group=(), columns=("Name",), member=False):
         """where: None (no WHERE clause) / True / False; stdout: "ok" / "pipe" / "other".
         -> (return value, events, self after)"""
         ev = []
@@ -139,6 +141,9 @@ class Run:
             return None
         env = {p["id"]: interp.Opaque(p.get("name") or "?") for p in self.ps}
         env[self.self_param] = selfv
+        if self.file_info_param is not None:
+            # the entry proper (None) or a member of an archive (Some(FileInfo)): both go through the same pipeline
+            env[self.file_info_param] = interp.some(interp.Opaque("file_info")) if member else interp.NONE
         got = interp.Interp(call=call, effect=effect, prog=self.ctx.prog, max_steps=60000).run(self.hir, env)
         return got, ev, selfv
 
@@ -164,14 +169,14 @@ def pipeline(ctx):
             for aggregate in ((False, True) if buffered else (False,)):
                 for found in (0, 1, 5):
                     for out in (("ok", "pipe", "other") if not buffered else ("ok",)):
-                        for order, group in ((("k",), ()), (("a", "k"), ("g",)), ((), ())):
+                        for order, group, member in ((("k",), (), False), (("a", "k"), ("g",), False), ((), (), False), (("k",), (), True), ((), (), True)):
                             if not order and buffered and not aggregate:
                                 continue
-                            sc = "WHERE %s, %s, %d rows so far, standard output %s, ORDER BY %s" % (
+                            sc = "%sWHERE %s, %s, %d rows so far, standard output %s, ORDER BY %s" % ("archive member, " if member else "",
                                 {None: "absent", True: "accepts", False: "rejects"}[where], ("buffered" + (" (aggregate)" if aggregate else "")) if buffered else "streamed",
                                 found, {"ok": "open", "pipe": "closed", "other": "failing"}[out], list(order))
                             try:
-                                got, ev, sv = run.run(where=where, buffered=buffered, aggregate=aggregate, found=found, stdout=out, order=order, group=group)
+                                got, ev, sv = run.run(where=where, buffered=buffered, aggregate=aggregate, found=found, stdout=out, order=order, group=group, member=member)
                             except interp.Undecided as e:
                                 ctx.obligation(False)
                                 bad("unreadable", "cannot evaluate check_file (%s): %s" % (sc, e))
